@@ -1,0 +1,93 @@
+//go:build verif
+
+/*
+ * Accessors of z.Tree for the /verif harness.  Compiled only with `-tags verif`; add-only.
+ */
+
+package z
+
+// VerifSetPageSize sets the tree page size (a package variable normally taken
+// from the OS) and the derived maxKeys.  Must be called while no Tree is alive.
+func VerifSetPageSize(n int) {
+	pageSize = n
+	maxKeys = (pageSize / 16) - 1
+	oneThird = int(float64(maxKeys) / 3)
+}
+
+// VerifPageSize returns the current page size and maxKeys.
+func VerifPageSize() (int, int) { return pageSize, maxKeys }
+
+// VerifNode is one page of the canonical walk, read through the node accessors.
+type VerifNode struct {
+	Pid    uint64   // the pointer that was followed (1 for the root)
+	Stored uint64   // n.pageID()
+	Leaf   bool     // n.isLeaf()
+	N      int      // n.numKeys()
+	KV     []uint64 // key(0), val(0), ..., key(N-1), val(N-1)
+}
+
+// VerifTreeWalk is the canonical dump of a tree.
+type VerifTreeWalk struct {
+	Nodes    []VerifNode // reachable nodes in pre-order
+	NextPage uint64
+	FreePage uint64
+	Free     []uint64 // the free list, following the links from FreePage
+	Stats    TreeStats
+	Err      string // non-empty if the structure could not be walked (cycle, pointer out of range)
+}
+
+func (t *Tree) verifInRange(pid uint64) bool {
+	return pid > 0 && (int(pid)+1)*pageSize <= len(t.data)
+}
+
+// VerifWalk returns every reachable node in pre-order, the allocator frontier,
+// the free list and the stats.
+func (t *Tree) VerifWalk() VerifTreeWalk {
+	w := VerifTreeWalk{NextPage: t.nextPage, FreePage: t.freePage, Stats: t.Stats()}
+	limit := int(t.nextPage) + 2
+	var rec func(pid uint64)
+	rec = func(pid uint64) {
+		if w.Err != "" {
+			return
+		}
+		if !t.verifInRange(pid) {
+			w.Err = "child pointer out of range"
+			return
+		}
+		if len(w.Nodes) > limit {
+			w.Err = "more reachable nodes than allocated pages (cycle or sharing)"
+			return
+		}
+		n := t.node(pid)
+		vn := VerifNode{Pid: pid, Stored: n.pageID(), Leaf: n.isLeaf(), N: n.numKeys()}
+		if vn.N < 0 || vn.N > maxKeys {
+			w.Err = "numKeys out of range"
+			return
+		}
+		vn.KV = make([]uint64, 0, 2*vn.N)
+		for i := 0; i < vn.N; i++ {
+			vn.KV = append(vn.KV, n.key(i), n.val(i))
+		}
+		w.Nodes = append(w.Nodes, vn)
+		if vn.Leaf {
+			return
+		}
+		for i := 0; i < vn.N; i++ {
+			if c := vn.KV[2*i+1]; c != 0 {
+				rec(c)
+			}
+		}
+	}
+	rec(1)
+	for p, steps := t.freePage, 0; p != 0; steps++ {
+		if !t.verifInRange(p) || steps > limit {
+			if w.Err == "" {
+				w.Err = "free list broken (pointer out of range or cycle)"
+			}
+			break
+		}
+		w.Free = append(w.Free, p)
+		p = t.node(p).uint64(0)
+	}
+	return w
+}
